@@ -141,6 +141,11 @@ def exponent (s : List Char) : Int × List Char :=
     else (0, s)
   | [] => (0, s)
 
+/-- `traits::scale` refuses decimal exponents above `max_exponent10 = 308` and below
+`2 · min_exponent10 = -614`; `real_impl::parse` then fails -/
+def scaled (neg : Bool) (digits : Nat) (k : Int) (rest : List Char) : Option (Val × List Char) :=
+  if k > 308 ∨ k < -614 then none else some (Val.ofDecimal neg digits k, rest)
+
 /-- `double_` (`real_policies<double>`: sign, leading / trailing dot allowed,
 `nan`, `nan(...)`, `inf`, `infinity`) -/
 def real (s : List Char) : Option (Val × List Char) :=
@@ -171,17 +176,17 @@ def real (s : List Char) : Option (Val × List Char) :=
           if nF = 0 then none
           else
             let (k, s4) := exponent s3
-            some (Val.ofDecimal neg fp (k - nF), s4)
+            scaled neg fp (k - nF) s4
         | _ => none
   else
     match s2 with
     | '.' :: t =>
       let (fp, nF, s3) := digits t ip 0     -- accumulate onto the integer part
       let (k, s4) := exponent s3
-      some (Val.ofDecimal neg fp (k - nF), s4)
+      scaled neg fp (k - nF) s4
     | _ =>
       let (k, s4) := exponent s2
-      some (Val.ofDecimal neg ip k, s4)
+      scaled neg ip k s4
 
 /-! ### LibSVM line -/
 
